@@ -49,7 +49,7 @@ fn gen_table(rng: &mut Rng, tier: Tier, small: bool) -> Value {
         key_domain: *rng.pick(&[2i64, 4, 6, 12]),
         ..Default::default()
     };
-    json!({"parts": tg.generate(rng), "sorted": false})
+    json!({"parts": tg.generate(rng), "sorted": false, "view": rng.chance(1, 3)})
 }
 
 /// Inserts one fault step ("err" or "panic") at a random position of a random partition.
@@ -78,7 +78,7 @@ impl Scenario for SqlScenario {
         if self.need_reference {
             // families Join/Agg/Sort all have references; Any may produce others: re-draw
             let mut guard = 0;
-            while !matches!(q["t"].as_str().unwrap_or(""), "join" | "nlj" | "cross" | "notin" | "groupby" | "global" | "distinct" | "topk_agg" | "sort")
+            while !matches!(q["t"].as_str().unwrap_or(""), "join" | "nlj" | "cross" | "notin" | "groupby" | "groupby_filter" | "global" | "distinct" | "topk_agg" | "sort" | "sort1")
                 && guard < 20
             {
                 q = queries::generate(rng, self.family);
